@@ -72,10 +72,11 @@ def enc_length_step(init: PairList, a: Int, b: Int, large: Bool):
 
 @lemma(["C06", "C09"], "dec_reqs/inverse-of-enc")
 def dec_enc_step(init: PairList, a: Int, b: Int, large: Bool):
-    """dec_reqs(enc_reqs(L)) == L for lists whose offsets fit the field width"""
-    requires(both(fss_fits(large, a), fss_fits(large, b)))
-    requires(dec_reqs(enc_reqs(init, large), large) == init)                          # induction hypothesis
+    """fit_reqs(L) ==> dec_reqs(enc_reqs(L)) == L"""
     L = init + [(a, b)]
+    unfold(fit_reqs, L, large)
+    requires(fit_reqs(L, large))
+    requires(implies(fit_reqs(init, large), dec_reqs(enc_reqs(init, large), large) == init))     # induction hypothesis
     unfold(enc_reqs, L, large)
     e = enc_reqs(L, large)
     unfold(dec_reqs, e, large)
@@ -215,12 +216,13 @@ def nak_roundtrip_any(mode: EnumOf(TransmissionMode), crc: EnumOf(CrcFlag), larg
     requires(ids_in_range(we, ws, src, seq, dst))
     lg = (large == LargeFileFlag.LARGE)
     requires(1 + 2 * fss_len(lg) * (1 + len(reqs)) + crc_len(crc) <= 65535)
-    requires(both(fss_fits(lg, start), fss_fits(lg, end), fit_reqs(reqs, lg)))
     conf = nak_conf(we, ws, src, seq, dst, mode, crc, large)
     pdu = NakPdu(conf, start, end, reqs)
     use_lemma("enc_reqs/length", len(enc_reqs(reqs, lg)) == 2 * fss_len(lg) * len(reqs))
-    use_lemma("dec_reqs/inverse-of-enc", dec_reqs(enc_reqs(reqs, lg), lg) == reqs)
-    raw = pdu.pack()
+    use_lemma("dec_reqs/inverse-of-enc", implies(fit_reqs(reqs, lg), dec_reqs(enc_reqs(reqs, lg), lg) == reqs))
+    p = outcome(pdu.pack)
+    requires(p.ok)          # every PDU that can be packed at all (NakPdu.pack/any-list: then all offsets fit their fields)
+    raw = p.value
     o = outcome(NakPdu.unpack, raw)
     ensures("accepted", o.ok)
     if o.ok:
